@@ -419,16 +419,19 @@ func (h *Header) SetExtension(id uint8, payload []byte) error { //nolint:gocogni
 		return nil
 	}
 
-	// No existing header extensions
-	h.Extension = true
-
+	// No existing header extensions: use the RFC 8285 form that can carry this one.
 	switch payloadLen := len(payload); {
-	case payloadLen <= 16:
+	case id >= 1 && id <= 14 && payloadLen >= 1 && payloadLen <= 16:
 		h.ExtensionProfile = extensionProfileOneByte
-	case payloadLen > 16 && payloadLen < 256:
+	case id >= 1 && payloadLen <= 255:
 		h.ExtensionProfile = extensionProfileTwoByte
+	case id < 1:
+		return fmt.Errorf("%w actual(%d)", errRFC8285TwoByteHeaderIDRange, id)
+	default:
+		return fmt.Errorf("%w actual(%d)", errRFC8285TwoByteHeaderSize, payloadLen)
 	}
 
+	h.Extension = true
 	h.Extensions = append(h.Extensions, Extension{id: id, payload: payload})
 
 	return nil
